@@ -6,28 +6,28 @@ CHECKS = {
     "C01": {
         "level": "exploration",
         "technique": "runtime monitoring: reference registration model + in-order trace matching over adaptive lock-step sessions (virtual time)",
-        "level_text": "Thousands of generated sessions with all flag combinations, all topic-ID kinds and prior registration/subscription histories; the oracle rebuilds from the wire what every topic ID denotes and matches client PUBLISHes with broker PUBLISHes one-to-one, field by field.",
+        "level_text": "Thousands of generated sessions with all flag combinations, all topic-ID kinds and prior registration/subscription histories; the oracle rebuilds from the wire what every topic ID denotes and matches client PUBLISHes with broker PUBLISHes one-to-one, field by field. Overlapping workloads: pipelined client packets with late broker answers and broker packet identifiers that coincide with the client's message IDs, all accept/refuse combinations of 2-3 overlapping SUBSCRIBEs (+REGISTER) of one name followed by a probe PUBLISH on the set-aside ID, and the broker-burst workload.",
         "level_note": "IDs allocated but not yet confirmed to the client are don't-care; lock-step delivery",
         "design_ref": "3/C01",
     },
     "C02": {
         "level": "exploration",
         "technique": "runtime monitoring: client-knowledge model over the wire trace; unique payload tags identify each broker message",
-        "level_text": "Broker publishes (QoS 0-2, short/predefined/registered/new names, four predefined-map shapes with client/'*' overlaps) are injected into generated sessions; the monitor resolves the delivered (type, ID) with the knowledge a client has at that moment and requires exactly-once delivery with unchanged flags.",
+        "level_text": "Broker publishes (QoS 0-2, short/predefined/registered/new names, four predefined-map shapes with client/'*' overlaps) are injected into generated sessions; the monitor resolves the delivered (type, ID) with the knowledge a client has at that moment and requires exactly-once delivery with unchanged flags. The broker-burst workload sends 1-4 broker PUBLISHes back to back (three bursts, new / repeated / short / predefined / registered names, broker packet identifiers starting at 30000, 65533 or 1) to a client that acknowledges REGISTER/PUBLISH 0 / 1 ms / 500 ms late, in a third of the cases sends every REGACK twice, and in a quarter of the cases receives every broker packet in two TCP segments 150 ms apart.",
         "level_note": "scripted client acknowledges everything promptly (loss is C16's subject)",
         "design_ref": "3/C02",
     },
     "C03": {
         "level": "exploration",
         "technique": "runtime monitoring: per-type bijection between the two recorded links with field comparison",
-        "level_text": "Generated sessions with every filter kind x requested QoS x broker SUBACK code (0,1,2,0x80; granted != requested); per packet type the client-side and broker-side sequences must correspond one-to-one with equal IDs/filters/QoS and the SUBACK mapping.",
+        "level_text": "Generated sessions with every filter kind x requested QoS x broker SUBACK code (0,1,2,0x80; granted != requested); per packet type the client-side and broker-side sequences must correspond one-to-one with equal IDs/filters/QoS and the SUBACK mapping. The overlap workload lets the broker's packet identifiers run through the client's message IDs (2, 3, 5...), and short-name SUBSCRIBE/UNSUBSCRIBE use a 2-byte UTF-8 name besides ASCII ones.",
         "level_note": "broker message IDs start at 30000 so that they do not coincide with the client's (coinciding IDs are C06's subject)",
         "design_ref": "3/C03",
     },
     "C04": {
         "level": "exploration",
         "technique": "runtime monitoring: invariant over everything handed out on the wire (id -> name function, range, predefined collisions, sticky exhaustion), incl. full 65534-ID exhaustion runs",
-        "level_text": "The ID space is actually exhausted (about 65.5k SUBSCRIBEs per run, several predefined layouts incl. IDs at 1 and 65534) and 60 further registrations of new and old names follow; plus thousands of ordinary generated sessions. The monitor keeps the id -> name relation of the whole session.",
+        "level_text": "The ID space is actually exhausted (about 65.5k SUBSCRIBEs per run, several predefined layouts incl. IDs at 1 and 65534) and 60 further registrations of new and old names follow; plus thousands of ordinary generated sessions. The monitor keeps the id -> name relation of the whole session. The broker-burst workload (several gateway REGISTERs in flight, duplicated REGACKs, final client PUBLISH on every handed-out ID) is part of the workload set, and a client PUBLISH with a handed-out ID that is forwarded under another name counts as 'the ID denotes a different name now'.",
         "level_note": "REGISTER-driven exhaustion is not used (O(n) duplicate scan per REGISTER); allocation path is the same newTopicID",
         "design_ref": "3/C04",
     },
@@ -35,7 +35,7 @@ CHECKS = {
         "level": "exploration",
         "exhaustive": True,
         "technique": "runtime monitoring: reference-model oracle over an exhaustively enumerated bounded configuration space + random larger maps",
-        "level_text": "All 262144 predefined-topic maps over 3 clients x 3 IDs x 3 names are enumerated and every lookup is compared with a 10-line reference (client entry, else '*' entry; ID lookup must be invertible); exhaustive for that bounded space, sampled beyond it.",
+        "level_text": "All 262144 predefined-topic maps over 3 clients x 3 IDs x 3 names are enumerated and every lookup is compared with a 10-line reference (client entry, else '*' entry; ID lookup must be invertible); exhaustive for that bounded space, sampled beyond it. Random larger maps include the boundary IDs 255, 256, 0x7FFF, 0x8000, 0xFFFD, 0xFFFE.",
         "level_note": "the bounded space contains every overlap/shadowing pattern between one client entry and one '*' entry; larger maps are sampled only",
         "design_ref": "3/C05",
     },
@@ -92,7 +92,7 @@ CHECKS = {
         "level": "fault_enumeration",
         "exhaustive": True,
         "technique": "runtime monitoring in virtual time: every silence point of every connect flow enumerated; deadline oracle on the recorded trace",
-        "level_text": "The fault is 'the client (or the broker) falls silent'; it is injected at every step of the five connect flows with every combination of inter-step gaps {0, 1 s, 4.9 s}, plus repeated CONNECTs and stray packets (a few hundred cases, all run). The oracle is the virtual timestamp of the handler's return and of the gateway closing the broker link against 5 s + one 100 ms poll after the last CONNECT.",
+        "level_text": "The fault is 'the client (or the broker) falls silent'; it is injected at every step of the five connect flows with every combination of inter-step gaps {0, 1 s, 4.9 s}, plus repeated CONNECTs and stray packets (a few hundred cases, all run). The oracle is the virtual timestamp of the handler's return and of the gateway closing the broker link against 5 s + one 100 ms poll after the last CONNECT. Mid-exchange packets include a CONNECT that the gateway refuses (keep-alive 0) and one with a reserved protocol ID.",
         "level_note": "virtual time (synctest) stands for real time; a peer that never sends CONNECT at all is outside this property (see C34)",
         "design_ref": "3/C10",
     },
@@ -119,7 +119,7 @@ CHECKS = {
         "exhaustive": True,
         "crash_is_violation": True,
         "technique": "runtime monitoring: termination causes injected at every step of base histories (virtual time); deadline + wire-state oracle; goroutine-leak inspection of the bubble's goroutine dump at quiescence",
-        "level_text": "Each of 8 termination causes is injected at every step index of 7 base histories (about 370 cases, all run; thorough repeats them 4x for scheduler variety) and the session is then given 130 virtual seconds. The oracle checks the handler's return time against one poll interval, the closing of the broker link, the DISCONNECT notice against a client-state machine rebuilt from the wire, and - from the runtime's goroutine dump filtered by synctest bubble - that nothing of the session is left. The real dial-failure path and whole-gateway shutdown through ListenAndServe (active and sleeping UDP peers) are run on loopback; a broker that stops reading (bounded link) is one of the base histories.",
+        "level_text": "Each of 8 termination causes is injected at every step index of 7 base histories (about 370 cases, all run; thorough repeats them 4x for scheduler variety) and the session is then given 130 virtual seconds. The oracle checks the handler's return time against one poll interval, the closing of the broker link, the DISCONNECT notice against a client-state machine rebuilt from the wire, and - from the runtime's goroutine dump filtered by synctest bubble - that nothing of the session is left. The real dial-failure path and whole-gateway shutdown through ListenAndServe (active and sleeping UDP peers) are run on loopback; a broker that stops reading (bounded link) is one of the base histories. Added later: a ninth cause (broker connection reset instead of EOF), and send-fault histories - the next / every later gateway->client datagram write, or gateway->broker write, fails from every step index on, followed 2 s later by shutdown, broker close or client DISCONNECT: the session must still end with the broker connection closed. A session frozen on a leaked mutex is reported by the goroutine-state deadlock monitor (rt), with the stacks as witness.",
         "level_note": "goroutine identity relies on the 'synctest bubble N' tag in runtime.Stack output; a leak makes the bubble unfinishable, so the child process exits after journaling it and the driver resumes",
         "design_ref": "3/C13",
     },
@@ -140,14 +140,14 @@ CHECKS = {
         "race_deciding_files": True,
         "race_func_prefixes": ["transactions.", "client.(*sleepTransaction)", "client.newSleepTransaction"],
         "technique": "runtime monitoring: invariant probes (completion-callback counter, Err stability, callback-after-Done) over enumerated and colliding operation histories + Go race detector + crash watch",
-        "level_text": "All operation sequences up to length 4 over the six transaction operations are run on five transaction variants in virtual time, plus same-instant and real-time collisions of completion calls with timers, and about 2000 histories of the client's sleep transaction through the real Client.Sleep (replies exactly at / just before timer instants, RetryDelay down to 0 in real time); probes assert at-most-once completion and no action after completion. The same workload runs under -race, where a report inside package transactions or the client's sleep transaction (or a nil dereference, seen as a crash) decides.",
+        "level_text": "All operation sequences up to length 4 over the six transaction operations are run on five transaction variants in virtual time, plus same-instant and real-time collisions of completion calls with timers, and about 2000 histories of the client's sleep transaction through the real Client.Sleep (replies exactly at / just before timer instants, RetryDelay down to 0 in real time); probes assert at-most-once completion and no action after completion. The same workload runs under -race, where a report inside package transactions or the client's sleep transaction (or a nil dereference, seen as a crash) decides. Slow-interface histories (real time): the DISCONNECT retransmission of the sleep transaction takes 1.3 s to leave the interface (memnet PreWrite hook, no lock held) while the reply, a 1 s sleep and the wake-up finish the transaction; a retransmission delivered after Sleep() returned is a violation.",
         "level_note": "collision interleavings are sampled by the scheduler (16 cores, repetitions), not enumerated; race detector only sees races that occur in the run",
         "design_ref": "3/C18",
     },
     "C19": {
         "level": "exploration",
         "technique": "runtime monitoring in virtual time (testing/synctest): exact timestamped callback/Done log compared with a reference schedule simulation",
-        "level_text": "A few thousand retry/timeout schedules (all RetryCount 0-5 x four delays x 0-3 progress events x three endings) run on the real transactions with a fake clock; the oracle is the exact virtual-time event list, so off-by-one retry counts, wrong delays and missing resets are all visible.",
+        "level_text": "A few thousand retry/timeout schedules (all RetryCount 0-5 x four delays x 0-3 progress events x three endings) run on the real transactions with a fake clock; the oracle is the exact virtual-time event list, so off-by-one retry counts, wrong delays and missing resets are all visible. Retry callbacks also return ErrRetryPostponed on a subset/prefix of their invocations (not counted against the budget) or a custom error (fails the transaction at that tick).",
         "level_note": "events are never placed on a timer tick (ties are C18's subject); the fake clock is Go's synctest",
         "design_ref": "3/C19",
     },
@@ -189,7 +189,7 @@ CHECKS["C17"] = {
 CHECKS["C27"] = {
     "level": "exploration",
     "technique": "runtime monitoring: reference-matcher oracle over callback events of the real client library driven by a scripted gateway (virtual time); exhaustive single-filter x name matrix",
-    "level_text": "Every one of the 105 filters over a small level alphabet (with '+', '#', empty levels) is subscribed alone and all 39 topic names are delivered to it (exhaustive for that matrix); two-filter sets are sampled in the quick tier and enumerated in the thorough tier; random subscribe/unsubscribe histories on top. The recorded callback invocations are compared with an independent MQTT topic matcher, before and after Unsubscribe.",
+    "level_text": "Every one of the 105 filters over a small level alphabet (with '+', '#', empty levels) is subscribed alone and all 39 topic names are delivered to it (exhaustive for that matrix); two-filter sets are sampled in the quick tier and enumerated in the thorough tier; random subscribe/unsubscribe histories on top. The recorded callback invocations are compared with an independent MQTT topic matcher, before and after Unsubscribe. Third front: the subscriptions change between the arrival of a message and its delivery (QoS 2: PUBREL held back) - Unsubscribe, re-Subscribe with another callback, a re-Subscribe the gateway refuses, Subscribe of another matching filter.",
     "level_note": "which of several matching callbacks runs is not constrained (the property asks for 'a' matching subscription)",
     "design_ref": "3/C27",
 }
@@ -199,7 +199,7 @@ CHECKS["C28"] = {
     "timeout_s": {"quick": 400, "thorough": 1800},
     "crash_is_violation": True,
     "technique": "runtime monitoring in virtual time: gateway misbehaviours enumerated per API call; return-within-bound oracle and goroutine-leak inspection of the bubble's goroutine dump",
-    "level_text": "About 50 gateway behaviours (silence/disconnect at each step, every unexpected packet type, garbage) x every API call x keep-alive on/off, plus all pairs of concurrent calls under four behaviours; every call runs in its own goroutine and must have returned after twice the documented bound of virtual time; after Close the goroutine dump of the bubble must contain no client goroutine.",
+    "level_text": "About 50 gateway behaviours (silence/disconnect at each step, every unexpected packet type, garbage) x every API call x keep-alive on/off, plus all pairs of concurrent calls under four behaviours; every call runs in its own goroutine and must have returned after twice the documented bound of virtual time; after Close the goroutine dump of the bubble must contain no client goroutine. Further behaviours: the client's own k-th datagram write (or every write from the k-th on) returns a send error; keep-alive 500 ms besides 0 and 3 s. A client goroutine stuck on a mutex for ever is reported by the goroutine-state deadlock monitor.",
     "level_note": "a hang is detected at 2x the bound (exact budgets are C17/C19); leak detection relies on the 'synctest bubble' tag of runtime.Stack",
     "design_ref": "3/C28",
 }
@@ -208,7 +208,7 @@ CHECKS["C34"] = {
     "level": "fault_enumeration",
     "exhaustive": True,
     "technique": "runtime monitoring in virtual time: 'client vanishes' injected after every client packet of base histories; deadline oracle against a keep-alive-enforcing broker model",
-    "level_text": "The fault 'the client stops sending forever' is injected after every client packet of 48 base histories (active, single and multi-cycle sleeps with decreasing durations up to 65535 s, return to active after long sleeps, half-open connect; keep-alive 1/10/60 s) and each case is observed for 66000 virtual seconds against a broker model that enforces MQTT keep-alive. The oracle is the time at which the session handler returns.",
+    "level_text": "The fault 'the client stops sending forever' is injected after every client packet of 48 base histories (active, single and multi-cycle sleeps with decreasing durations up to 65535 s, return to active after long sleeps, half-open connect; keep-alive 1/10/60 s) and each case is observed for 66000 virtual seconds against a broker model that enforces MQTT keep-alive. The oracle is the time at which the session handler returns. Also: a sleeping client with buffered messages whose wake-up flush runs into a send error (one or all writes fail), then silence; a session frozen on a leaked mutex counts as a half-open session (deadlock monitor).",
     "level_note": "assumes, as the property does, a broker that enforces keep-alive and drops connections without CONNECT (modelled: 1.5 x KA, 10 s)",
     "design_ref": "3/C34",
 }
@@ -216,7 +216,7 @@ CHECKS["C34"] = {
 CHECKS["C16"] = {
     "level": "fault_enumeration",
     "technique": "runtime monitoring: enumerated loss/duplication plans on the in-memory datagram link between the real client library and the real gateway session (simulated broker behind it, virtual time); reference simulation of the retry protocol + wire/handler/broker-ack oracles",
-    "level_text": "For six broker-to-client delivery flows (QoS 1/2 x known topic, REGISTER step, short topic) and RetryCount 1 and 2, every single drop of the first RetryCount+2 occurrences of every datagram of the flow in either direction, duplications, all pairs of those (a quarter of the pairs in the quick tier) and all runs of consecutive losses up to RetryCount+1 are injected. Handler invocations, the acknowledgements reaching the broker and every retransmitted datagram (ID, payload, DUP, spacing, count) are checked against a reference simulation of the retry budget.",
+    "level_text": "For six broker-to-client delivery flows (QoS 1/2 x known topic, REGISTER step, short topic) and RetryCount 1 and 2, every single drop of the first RetryCount+2 occurrences of every datagram of the flow in either direction, duplications, all pairs of those (a quarter of the pairs in the quick tier) and all runs of consecutive losses up to RetryCount+1 are injected. Handler invocations, the acknowledgements reaching the broker and every retransmitted datagram (ID, payload, DUP, spacing, count) are checked against a reference simulation of the retry budget. Second front: two broker messages (QoS 1/2, then QoS 0/1/2) on one new topic 0 / 1 s / 9 s / 11 s apart while the REGISTER or REGACK of the first is lost or duplicated: both reach the handler (QoS 2 exactly once), session and client stay up.",
     "level_note": "faults are addressed by (direction, type, occurrence index); 'within budget' is decided per protocol step (RetryCount+1 transmission attempts each), the reading under which a retry protocol can satisfy the property at all",
     "design_ref": "3/C16",
 }
@@ -224,7 +224,7 @@ CHECKS["C16"] = {
 CHECKS["C26"] = {
     "level": "exploration",
     "technique": "runtime monitoring: generated API programs run by the real client library against the real gateway session and a conforming broker model in one virtual-time world; sequential effect model + delivery oracle over the recorded trace and callback events",
-    "level_text": "About 1500 (quick) random legal API programs of 5-30 calls, with third-party broker messages (single and bursts on unregistered topics under wildcards) and repeated sleep cycles with traffic during sleep, are executed lock-step by the two real implementations together. The oracle compares what the broker saw with the calls (CONNECT fields, publishes, filters, DISCONNECT) and requires every message the broker sent to reach a handler of a matching filter exactly once (QoS 1: at least once).",
+    "level_text": "About 1500 (quick) random legal API programs of 5-30 calls, with third-party broker messages (single and bursts on unregistered topics under wildcards) and repeated sleep cycles with traffic during sleep, are executed lock-step by the two real implementations together. The oracle compares what the broker saw with the calls (CONNECT fields, publishes, filters, DISCONNECT) and requires every message the broker sent to reach a handler of a matching filter exactly once (QoS 1: at least once). Second front (client library against a scripted conforming gateway): two calls on one filter/topic in progress at once (Subscribe+Subscribe, Subscribe+Unsubscribe, Unsubscribe+Subscribe, Register+Register, Register+Subscribe), every accept/refuse combination, acknowledgements in either order: both calls return what their acknowledgement says, a message runs a callback of an accepted subscription, Publish uses the TopicID that was handed out. Sleep durations include 0.5 s and 1.5 s.",
     "level_note": "lock-step execution (each call returns before the next starts); programs are legal by the library's documentation (Publish only on registered/short/predefined topics; after Sleep only Sleep/Connect/Disconnect)",
     "design_ref": "3/C26",
 }
@@ -233,7 +233,7 @@ CHECKS["C32"] = {
     "level": "exploration",
     "exhaustive": True,
     "technique": "runtime monitoring: name-equality oracle over the broker-side trace and the client's handler events in a world where the real client library and the real gateway session share one predefined-topic map",
-    "level_text": "All 256 predefined maps of a small space (two clients/'*', two IDs, three names incl. a 2-byte one) and hundreds of random larger maps with client-specific/'*' overlaps and shadowing are shared by the real client and the real gateway; every name of the map, unknown names and random 2-byte names are published/subscribed exactly as the command-line tools do (GetTopicID, else short) and also published by the broker. The oracle compares names only: what the broker saw with what the client used, and what the handler got with what the broker sent.",
+    "level_text": "All 256 predefined maps of a small space (two clients/'*', two IDs, three names incl. a 2-byte one) and hundreds of random larger maps with client-specific/'*' overlaps and shadowing are shared by the real client and the real gateway; every name of the map, unknown names and random 2-byte names are published/subscribed exactly as the command-line tools do (GetTopicID, else short) and also published by the broker. The oracle compares names only: what the broker saw with what the client used, and what the handler got with what the broker sent. A fifth of the sampled configurations use a 32-character client ID with its own section; a third of the clients connect with a last will.",
     "level_note": "exhaustive only for the small configuration space; lossless lock-step delivery; 2-byte names with wildcard characters are left out (not publishable in MQTT)",
     "design_ref": "3/C32",
 }
@@ -241,7 +241,7 @@ CHECKS["C32"] = {
 CHECKS["C33"] = {
     "level": "exploration",
     "technique": "runtime monitoring in virtual time: wire-state oracle over timestamped PINGREQ datagrams of the real client library (keep-alive enabled) against a scripted gateway; API calls placed on a grid around the keep-alive tick instants",
-    "level_text": "About 1600 (quick) programs with Sleep/Connect/Publish/Subscribe/Ping/Disconnect calls placed just before, exactly at and just after keep-alive ticks and during slow or retried keep-alive exchanges; the monitor rebuilds active/asleep/disconnected windows from the wire and checks ping spacing while active, silence while asleep or disconnected (incl. retransmissions of a ping begun earlier), and that no API call fails or hangs because of a keep-alive exchange.",
+    "level_text": "About 1600 (quick) programs with Sleep/Connect/Publish/Subscribe/Ping/Disconnect calls placed just before, exactly at and just after keep-alive ticks and during slow or retried keep-alive exchanges; the monitor rebuilds active/asleep/disconnected windows from the wire and checks ping spacing while active, silence while asleep or disconnected (incl. retransmissions of a ping begun earlier), and that no API call fails or hangs because of a keep-alive exchange. Keep-alive 500 ms is part of the configuration space (sub-second sleeps are sent as 1 s).",
     "level_note": "virtual time (synctest, post-1.23 ticker semantics); same-instant ties between a tick and a state change are not judged",
     "design_ref": "3/C33",
 }
@@ -250,7 +250,7 @@ CHECKS["C06"] = {
     "level": "exploration",
     "exhaustive": True,
     "technique": "runtime monitoring: exhaustive interleaving of the protocol steps of two exchanges with one message ID (script-controlled peers, virtual time) against the real gateway session and the real client library; completion/exactly-once oracle over the recorded trace",
-    "level_text": "For every pair (client-initiated exchange, broker/gateway-initiated exchange) with a coinciding message ID, every merge of their protocol steps is executed (the peers are scripted, so the order is chosen, not sampled), with and without an earlier finished, timed-out or unanswered exchange that used the same ID. The monitor requires each forward and acknowledgement exactly once, which exposes replaced or deleted exchange state as a missing or repeated packet.",
+    "level_text": "For every pair (client-initiated exchange, broker/gateway-initiated exchange) with a coinciding message ID, every merge of their protocol steps is executed (the peers are scripted, so the order is chosen, not sampled), with and without an earlier finished, timed-out or unanswered exchange that used the same ID. The monitor requires each forward and acknowledgement exactly once, which exposes replaced or deleted exchange state as a missing or repeated packet. A fifth prefix reuses the message ID of a client QoS 2 exchange finished 5 s earlier while the answer of the new client exchange arrives 6 s late (more than one RetryDelay after the finished exchange began).",
     "level_note": "exhaustive for the listed exchange kinds and step orders (thorough: x all prefixes); steps are lock-step, so races inside one step are those of C25/C11",
     "design_ref": "3/C06",
 }
